@@ -36,7 +36,7 @@ ASSUMPTIONS = [
 PROBES = ["restart_after_other_use", "feature_all_steps", "resim_old_buffers_checked", "shared_underlier_resim",
           "prev_output_corrupted_then_hedged", "model_raise_then_hedged", "hedger_cast", "listed_hedge",
           "lazy_model", "requires_grad_flag_flipped", "kept_feature_reused", "listed_quote_vs_fresh_pricer", "clone_opposite_grad_mode", "clone_opposite_module_mode",
-          "kept_bs_module_reused", "attribute_assigned_on_live_object", "relisted_between_calls"]
+          "kept_bs_module_reused", "feature_object_shared_by_two_hedgers", "attribute_assigned_on_live_object", "relisted_between_calls"]
 
 
 class SimFault(Exception):
@@ -105,6 +105,11 @@ def generate(rng):
     compat = {}
     hedges_of = {}
     n_h = rng.choice([1, 2, 2])
+    # two hedgers may hold one and the same feature object (a ModuleOutput, possibly reading prev_hedge): what either of
+    # them computes must not depend on which of them used the feature last
+    want_share = n_h == 2 and rng.chance(0.35)
+    shared_mo = None
+    share_group = []
     for hi in range(n_h):
         hid = "h%d" % hi
         # derivatives this hedger will be used with
@@ -127,7 +132,11 @@ def generate(rng):
             okds = ds[:1]
             hl[okds[0]["id"]] = None
         ds = okds
+        if hi == 1 and shared_mo is not None:
+            ds, H, hl = list(shared_mo[1]), shared_mo[2], dict(shared_mo[3])
         mk = rng.choice(["linear", "mlp", "mlp", "sin", "pf_mlp", "lazy_mlp", "naked", "bs", "ww"])
+        if want_share and (hi == 0 or shared_mo is not None):
+            mk = rng.choice(["linear", "mlp", "mlp", "sin", "pf_mlp"])
         feats = None
         if mk in ("bs", "ww"):
             cands = [d for d in ds if d["kind"] in BS_INPUTS and pk[d["underlier"]]["kind"] in HAS_VOL
@@ -155,6 +164,17 @@ def generate(rng):
                 inner_in = rng.sample([f for f in adm if f != "prev_hedge"], rng.randint(1, 2))
                 feats.append({"f": "module_output", "module": {"kind": "linear", "in": len(inner_in), "out": 1,
                                                                "init_seed": rng.seed31()}, "inputs": inner_in})
+            if want_share and hi == 0:
+                inner_in = rng.sample([f for f in adm if f != "prev_hedge"], rng.randint(1, 2)) + (["prev_hedge"] if rng.chance(0.7) else [])
+                fs = {"f": "module_output", "share": "s0", "inputs": inner_in,
+                      "module": {"kind": "linear", "in": sum(H if f == "prev_hedge" else 1 for f in inner_in), "out": 1,
+                                 "init_seed": rng.seed31()}}
+                shared_mo = (fs, ds, H, hl)
+                feats.append(fs)
+                share_group.append(hid)
+            elif want_share and shared_mo is not None:
+                feats.append(copy.deepcopy(shared_mo[0]))
+                share_group.append(hid)
             if mk == "lazy_mlp" and H > 1 and "prev_hedge" in feats:
                 feats.remove("prev_hedge")  # fit() materialises lazy layers with the default hedge (see C15)
                 if not feats:
@@ -258,8 +278,9 @@ def generate(rng):
                 pbuf[ul] = new_sim_dtype(ul)
             need = new_sim_dtype(ul) if ck in RESIM else pbuf[ul]
             if mdtype[h["id"]] != need:
-                emit({"op": "hedger_to", "hedger": h["id"], "dtype": need}, actor)
-                mdtype[h["id"]] = need
+                for hid_ in (share_group if h["id"] in share_group else [h["id"]]):  # a shared module is cast for all its holders
+                    emit({"op": "hedger_to", "hedger": hid_, "dtype": need}, actor)
+                    mdtype[hid_] = need
             op = {"op": "compute", "kind": ck, "hedger": h["id"], "derivative": d["id"],
                   "hedge": hedges_of[h["id"]][d["id"]], "torch_seed": rng.seed31(),
                   "restart": rng.chance(0.6), "grad_mode": rng.choice([None, None, "no_grad", "enable_grad"])}
@@ -332,8 +353,9 @@ def generate(rng):
             else:
                 h = rng.choice(hedgers)
                 dt = rng.choice(["float32", "float64"])
-                emit({"op": "hedger_to", "hedger": h["id"], "dtype": dt}, actor)
-                mdtype[h["id"]] = dt
+                for hid_ in (share_group if h["id"] in share_group else [h["id"]]):
+                    emit({"op": "hedger_to", "hedger": hid_, "dtype": dt}, actor)
+                    mdtype[hid_] = dt
         else:
             h = rng.choice(hedgers)
             fk = rng.choice(["corrupt_prev_output", "corrupt_prev_output", "model_raise"])
@@ -632,6 +654,8 @@ def _execute(program, stats, hist):
             world.primaries[op["target"]].to(DT[op["dtype"]])
             hist.add(actor=op.get("actor"), op="instrument_to", target=op["target"], dtype=op["dtype"])
         elif name == "compute":
+            if any(isinstance(f, dict) and f.get("share") for f in world.spec_of("hedgers", op["hedger"])["inputs"]):
+                stats.probe("feature_object_shared_by_two_hedgers")
             hazard = _do_compute(world, op, stats, hist, seq, used, tainted, pending_raise) or hazard
         elif name == "quant":
             hz = _do_quant(world, op, stats, hist, seq)
